@@ -512,5 +512,21 @@ pub fn c14_strategy(thorough: bool) -> BoxedStrategy<RawCase> {
             RawCase { kind: "byte-mutation".into(), pieces: vec![Piece::Lit(b)], handler, tcp, declared_beyond_sent: false, reset_storm: 0 }
         });
     let storm = (1usize..6, proptest::sample::select(vec!["GET /s HTTP/1.1\r\nHost: h\r\n\r\n", "", "POST /s HTTP/1.1\r\nContent-Length: 5\r\n\r\nab"])).prop_map(|(n, req)| RawCase { kind: "reset-storm".into(), pieces: vec![lit(req)], handler: Handler::RespondNoRead, tcp: true, declared_beyond_sent: false, reset_storm: n });
-    prop_oneof![4 => declared, 3 => chunk, 2 => many_headers, 2 => long_line, 2 => te, 5 => mutated, 1 => storm].boxed()
+    // the same request many times on one connection (deep pipelines; also of rejected requests)
+    let repeated = (
+        proptest::sample::select(vec![
+            ("GET /r HTTP/2.0\r\n\r\n", 20000usize),
+            ("GET /r HTTP/3.0\r\nHost: h\r\n\r\n", 20000),
+            ("GET /r HTTP/1.1\r\nHost: h\r\n\r\n", 3000),
+            ("POST /r HTTP/1.1\r\nContent-Length: 3\r\n\r\nabc", 3000),
+            ("POST /r HTTP/1.1\r\nTransfer-Encoding: chunked\r\n\r\n1\r\nx\r\n0\r\n\r\n", 2000),
+            ("HEAD /r HTTP/1.0\r\nConnection: keep-alive\r\n\r\n", 3000),
+            ("\r\n", 20000),
+        ]),
+        prop_oneof![Just(1usize), Just(10usize), Just(100usize), Just(1000usize)],
+        handler_strategy(),
+        any::<bool>(),
+    )
+        .prop_map(|((req, max), div, handler, tcp)| RawCase { kind: "repeated-request".into(), pieces: vec![Piece::Repeat(req.as_bytes().to_vec(), (max / div).max(1))], handler, tcp, declared_beyond_sent: false, reset_storm: 0 });
+    prop_oneof![4 => declared, 3 => chunk, 2 => many_headers, 2 => long_line, 2 => te, 5 => mutated, 1 => storm, 2 => repeated].boxed()
 }
